@@ -307,6 +307,11 @@ def run(ctx):
              'without reset, executions other than accepted ERROR/CANCELLED '
              'ones are un-accepted', ctx.loc(ra))
 
+    # ---- R7 item accounting reads the polymorphic collection ---------------------
+    r7 = ctx.rule('R7', 'item accounting uses task_ex.executions, not a '
+                  'type-specific collection', 'WMW')
+    child_collections(ctx, r7)
+
     # ---- R6 duplicate completion (shared with C06.R6) ---------------------------
     r6 = ctx.rule('R6', 'capacity is not returned twice for one item',
                   'dataflow')
@@ -325,3 +330,55 @@ def run(ctx):
         r6.check(guarded, ctx.construct(f, c),
                  'capacity / scheduling is changed without consulting the '
                  'delivered execution %r' % arg, ctx.loc(f, c))
+
+
+# type-specific collections may be used only here (reason each)
+TYPED_COLLECTION_OK = {
+    'mistral.engine.tasks.Task.complete':
+        'keep-result: destroys outputs of plain actions only (hasattr '
+        'output check)',
+    'mistral.engine.actions.Action._create_action_execution':
+        'keeps the session collection in sync for a new plain action',
+    'mistral.engine.workflows._build_fail_info_message':
+        'error report lists both kinds separately',
+}
+
+
+def child_collections(ctx, rule):
+    """Item accounting must read the polymorphic `task_ex.executions`
+    (plain actions OR sub-workflows); a type-specific collection makes the
+    accounting blind for the other kind of item."""
+    prog = ctx.prog
+    n = 0
+    for q, f in sorted(prog.funcs.items()):
+        if not f.module.startswith(('mistral.engine.', 'mistral.workflow.')):
+            continue
+        for x in own_nodes(f.node):
+            if isinstance(x, ast.Attribute) and x.attr in (
+                    'action_executions', 'workflow_executions') and \
+                    isinstance(x.ctx, ast.Load):
+                n += 1
+                root = f
+                while root.parent is not None:
+                    root = root.parent
+                rule.check(root.qname in TYPED_COLLECTION_OK,
+                           ctx.construct(f, x),
+                           'uses the type-specific collection .%s instead '
+                           'of task_ex.executions: items of the other kind '
+                           '(sub-workflows / plain actions) are invisible '
+                           'to this computation' % x.attr, ctx.loc(f, x),
+                           TYPED_COLLECTION_OK.get(root.qname, ''))
+    if n < 3:
+        raise AnalysisError('child collections: only %d typed uses' % n)
+    k, node = prog.class_attr('mistral.db.v2.sqlalchemy.models.'
+                              'TaskExecution', 'executions')
+    pf = prog.funcs.get('mistral.db.v2.sqlalchemy.models.TaskExecution.'
+                        'executions')
+    ok = pf is not None and pf.has_decorator('property') and \
+        'action_executions' in ast.unparse(pf.node) and \
+        'workflow_executions' in ast.unparse(pf.node) and \
+        "spec.get('workflow')" in ast.unparse(pf.node)
+    rule.check(ok, 'mistral.db.v2.sqlalchemy.models.TaskExecution.'
+               'executions :: polymorphic', 'TaskExecution.executions no '
+               'longer selects the collection by task kind',
+               'mistral/db/v2/sqlalchemy/models.py')
